@@ -285,7 +285,7 @@ def run(ctx):
     model_invs = ["EncodeDecode", "LocaInv", "RoundTrip", "FixInv", "HistInv"]
     jobs = {}
     jobs["model"] = pool.submit(_model, ctx, "Glyf model: palette sets, all writer choices",
-                                _cfg("set", salt, glyphs=ctx.pick(2, 3), steps=4, invs=model_invs, view=True), w_model, 1500)
+                                _cfg("set", salt, glyphs=ctx.pick(2, 3), steps=4, invs=model_invs, view=True), w_model, ctx.pick(1500, 3600))
     jobs["mustfail"] = pool.submit(_must_fail, ctx, "Glyf with a shared Encode buffer (must violate HistInv)",
                                    _cfg("ops", salt, steps=4, invs=["HistInv"], shared=True), 2, 900)
     jobs["loca"] = pool.submit(_model, ctx, "Glyf loca layout at 64K/128K boundaries",
